@@ -25,7 +25,7 @@ TokAt(buf, p) ==
    ELSE CASE h.major \in {0, 1} -> TOk(TkInt(h.major = 1, h.arg), p + h.hl)
           [] h.major \in {2, 3} ->
                IF h.indef THEN TOk([m |-> IF h.major = 2 THEN "begin_bytes" ELSE "begin_str"], p + 1)
-               ELSE IF ~IsSmall(h.arg) \/ p + h.hl + ToNat(h.arg) > Len(buf) THEN [st |-> "end"]
+               ELSE IF ~IsSmall(h.arg) \/ ToNat(h.arg) > Len(buf) - p - h.hl THEN [st |-> "end"]
                ELSE LET b == SubSeq(buf, p + h.hl + 1, p + h.hl + ToNat(h.arg)) IN
                     IF h.major = 3 /\ ~ValidUtf8(b) THEN [st |-> "err"]
                     ELSE TOk([m |-> IF h.major = 2 THEN "bytes" ELSE "str", b |-> b], p + h.hl + ToNat(h.arg))
